@@ -187,10 +187,17 @@ def pWriteCrash (st : PState) (batch : List Point) : Option (PState × ChangeSet
   else some (appendLog { st with series := touchSeries st.series batch } (createdRecord v.created),
              createdRecord v.created)
 
+/-- `Engine.deleteSeriesRange` returns at once — index, field set and files
+    untouched — when no TSM file overlaps the time range and the cache holds no
+    key.  Modelled as "the engine holds no value at all" (exact unless a TSM file
+    whose every value was deleted is still around; the generated cases keep a
+    sentinel series, so the engine is never empty there). -/
+def dropApplies (st : PState) (m : String) : Bool := st.series.contains m && !st.data.isEmpty
+
 /-- `Shard.DeleteMeasurement`: all data and series of `m` go; when the measurement
     existed in the index its field set is removed and the deletion is logged -/
 def pDrop (st : PState) (m : String) : PState :=
-  if st.series.contains m then
+  if dropApplies st m then
     let data' := st.data.filter (fun e => e.1.1 != m)
     appendLog { st with mem := dropMeas st.mem m, data := data', series := st.series.filter (· != m) } [.del m]
   else st
@@ -248,7 +255,7 @@ def step10 (st : PState) : Op10 → PState × Step10
     | none => let r := pWrite st b; (r.1, .write b r.2 (seen r.1))
     | some (st', last) => reopened (.tornWrite b) st' (tornBytes (st.log.getD []) last j)
   | .dropTorn j m =>
-    if st.series.contains m then
+    if dropApplies st m then
       reopened (.tornDrop m) (pDrop st m) (tornBytes (st.log.getD []) [.del m] j)
     else (st, .drop m true (seen st))
   | .crashInClose p =>
